@@ -248,6 +248,11 @@ def pointwise_global_reconstruction_distortion(
         .fit(X_train, estimator.predict(X_train))
         .predict(X_test)
     )
+    # the orthogonal regression zero-pads the narrower space, do the same here
+    predictions_Y_test = np.pad(
+        predictions_Y_test,
+        [(0, 0), (0, orthogonal_predictions_Y_test.shape[1] - Y_test.shape[1])],
+    )
 
     return np.linalg.norm(predictions_Y_test - orthogonal_predictions_Y_test, axis=1)
 
